@@ -182,7 +182,7 @@ namespace sim
    struct deep9 : pegtl::opt< pegtl::seq< pegtl::at< pegtl::any >, pegtl::sor< pegtl::seq< pegtl::opt< pegtl::one< 'b' > >, pegtl::plus< pegtl::sor< pegtl::seq< pegtl::opt< pegtl::one< 'c' > >, pegtl::sor< deep_leaf, pegtl::one< 'b' > > >, pegtl::one< '0' > > > >, pegtl::one< 'c' > > > > {};
    // a selected rule 10 levels below an unselected sor<> whose first alternative fails AFTER that rule matched:
    // only correct leaf classification beyond depth 8 keeps the backtracked node out of the tree
-   struct deep10_bt : pegtl::sor< pegtl::seq< pegtl::opt< pegtl::seq< pegtl::at< pegtl::any >, pegtl::sor< pegtl::seq< pegtl::opt< pegtl::range< 'b', 'b' > >, pegtl::plus< pegtl::sor< pegtl::seq< pegtl::opt< pegtl::range< 'c', 'c' > >, pegtl::sor< deep_leaf, pegtl::range< 'b', 'b' > > >, pegtl::range< '0', '0' > > > >, pegtl::range< 'c', 'c' > > > >, pegtl::range< '!', '!' > >, pegtl::success > {};
+   struct deep10_bt : pegtl::sor< pegtl::seq< pegtl::opt< pegtl::seq< pegtl::at< pegtl::not_range< '!', '!' > >, pegtl::sor< pegtl::seq< pegtl::opt< pegtl::range< 'b', 'b' > >, pegtl::plus< pegtl::sor< pegtl::seq< pegtl::opt< pegtl::range< 'c', 'c' > >, pegtl::sor< deep_leaf, pegtl::range< 'b', 'b' > > >, pegtl::range< '0', '0' > > > >, pegtl::range< 'c', 'c' > > > >, pegtl::range< '!', '!' > >, pegtl::success > {};
    // clang-format on
 
    // action attachment: node<I> by I mod 5, mini<J> by (J+1) mod 5 in family 1 and (J+2) mod 5 in family 2
